@@ -69,6 +69,9 @@ def resStr (w : Wrapper) : Res → String
 def exec (st : St) (toks : List String) : St × String :=
   match toks with
   | ["setup"] => (St.init, "ok | " ++ view St.init 3)
+  -- membership churn of g0 (B out, F in): no store changes; what OpenMLS opens afterwards comes with the
+  -- deliver lines (`mls=ok|fail`)
+  | ["swap"] => (st, "ok | -")
   | ["send", i, g, ts, k, tg, c] =>
     match i.toNat?, g.toNat?, ts.toNat?, k.toNat?, tg.toNat?, c.toNat? with
     | some i, some g, some ts, some k, some tg, some c =>
